@@ -245,6 +245,12 @@ func main() {
 			tot.ViolEx[k] = ex
 		}
 		for k, v := range r.Extra {
+			if strings.HasPrefix(k, "max_") {
+				if v > tot.Extra[j.part.Name+"."+k] {
+					tot.Extra[j.part.Name+"."+k] = v
+				}
+				continue
+			}
 			tot.Extra[j.part.Name+"."+k] += v
 		}
 		for k, v := range r.Bounds {
